@@ -342,6 +342,36 @@ func harnesses(r *fw.Run) []fw.HarnessSpec {
 			if derr != nil || !ok || got != wantVal {
 				c.Fail("value-from-proof", "decoding the proven dictionary from the proof: value %d found=%v err=%v, want %d", got, ok, derr, wantVal)
 			}
+			// a proof of a proof: the dictionary taken out of the proof (it already contains pruned branches) is proven
+			// again for the same key; the new proof commits to the same original root and is a valid bag for a
+			// validating reader, its pruned branches still carrying hash and depth of the original subtrees
+			if prevSel == 0 && !c.Failed() {
+				inner := proots[0].Refs()[0]
+				inner.ResetCounters()
+				prover2, err := tb.NewMerkleProver(inner)
+				if err != nil {
+					c.Fail("prover-error-on-pruned-tree", "%v", err)
+					return
+				}
+				val2, proof2, err := tlb.ProveKeyInHashmap[tlb.Uint32](prover2, inner, bitString(key))
+				if err != nil || int64(val2) != wantVal {
+					c.Fail("proof-of-proof-error", "proving key %s in the dictionary taken from its own proof: value %d err %v", key, val2, err)
+					return
+				}
+				roots2, err := rboc.Parse(proof2)
+				if err != nil {
+					c.Fail("proof-invalid:proof-of-proof", "the second proof is not a well-formed bag of cells for a validating reader: %v", err)
+					return
+				}
+				oh := orig.Hash(0)
+				if len(roots2) != 1 || roots2[0].Type != cell.MerkleProof || string(roots2[0].Data[1:33]) != string(oh[:]) {
+					c.Fail("proof-commitment:proof-of-proof", "the second proof does not commit to the original dictionary root %x", oh)
+					return
+				}
+				if ch := roots2[0].Refs[0].Hash(0); ch != oh {
+					c.Fail("proof-level0-hash:proof-of-proof", "pruned tree of the second proof has level-0 hash %x, original root %x", ch, oh)
+				}
+			}
 		})
 	})
 
